@@ -213,13 +213,16 @@ def inlined(P, key, policy=None, _cache={}):
 
 
 def _const_env(stmts):
-    """constants held by plain locals at the end of a statement list (very small forward pass)"""
+    """constants held by plain locals at the end of a statement list (very small forward pass): integers / bools, and
+    ('V', name) for a local that was just built as the enum variant `name`"""
     env = {}
     for st in stmts:
         if st.get("k") != "assign":
             continue
         pl = st["place"]
         if pl["p"]:
+            # a write into a part of the local: what we knew about it is gone
+            env.pop(pl["l"], None)
             continue
         rv = st["rv"]
         val = None
@@ -233,8 +236,16 @@ def _const_env(stmts):
             o = rv["x"]
             if o.get("k") in ("copy", "move") and not o["place"]["p"]:
                 v = env.get(o["place"]["l"])
-                if v is not None:
+                if v is not None and not isinstance(v, tuple):
                     val = 0 if v else 1
+        elif rv["k"] == "aggregate" and rv.get("agg") == "adt" and rv.get("variant"):
+            val = ("V", rv["variant"])
+        elif rv["k"] == "discriminant" and not rv["place"]["p"]:
+            v = env.get(rv["place"]["l"])
+            if isinstance(v, tuple):
+                for idx, name in (rv.get("variants") or {}).items():
+                    if name == v[1]:
+                        val = int(idx)
         if val is None:
             env.pop(pl["l"], None)
         else:
@@ -267,6 +278,8 @@ def _pure_simple(stmts):
             o = rv["op"]
         elif rv["k"] == "unop" and rv["op"] == "Not":
             o = rv["x"]
+        elif rv["k"] == "discriminant" and not rv["place"]["p"]:
+            continue
         else:
             return False
         if o.get("k") == "const":
@@ -327,7 +340,7 @@ def thread_jumps(raw, rounds=8):
                     d = mt["discr"]
                     if d.get("k") in ("copy", "move") and not d["place"]["p"]:
                         v = _const_env(stmts).get(d["place"]["l"])
-                        if v is not None:
+                        if v is not None and not isinstance(v, tuple):
                             nxt = mt["otherwise"]
                             for val, x in mt["targets"]:
                                 if str(val) == str(v):
